@@ -120,7 +120,7 @@ theorem ackedW_mono (s : St) (op : Op) (id : Nat) (h : id ∈ s.ackedW) : id ∈
     split
     · exact ht
     · split
-      · simp only [flushQ, foldl_flush, flushed, notify]; exact List.mem_append_left _ ht
+      · simp only [flushQ, foldl_flush, flushed, notify, announce]; exact List.mem_append_left _ ht
       · split
         · simp only [notify]; exact List.mem_append_left _ ht
         · simp only [notify]; exact List.mem_append_left _ ht
@@ -160,6 +160,9 @@ theorem ackedW_mono (s : St) (op : Op) (id : Nat) (h : id ∈ s.ackedW) : id ∈
     simp only [step, deliverApply]; split; exact h; split; exact h; split; exact h; exact h
   | dSkip n =>
     simp only [step, deliverSkip]; split; exact h; split; exact h; split; exact h; exact h
+  | dApplyBuf m =>
+    simp only [step, deliverBuf]; split; exact h; split; exact h; split; exact h; exact h
+  | view => exact h
   | append l => simp only [step]; split; exact h; exact h
   | hold b => exact h
   | close =>
@@ -201,7 +204,7 @@ theorem down_step (s : St) (op : Op) (h : s.down = false) (hop : isTorn op = fal
     split
     · exact ht
     · split
-      · simp only [flushQ, foldl_flush, flushed, notify]; exact ht
+      · simp only [flushQ, foldl_flush, flushed, notify, announce]; exact ht
       · split
         · exact ht
         · exact ht
@@ -238,6 +241,9 @@ theorem down_step (s : St) (op : Op) (h : s.down = false) (hop : isTorn op = fal
     simp only [step, deliverApply]; split; exact h; split; exact h; split; exact h; exact h
   | dSkip n =>
     simp only [step, deliverSkip]; split; exact h; split; exact h; split; exact h; exact h
+  | dApplyBuf m =>
+    simp only [step, deliverBuf]; split; exact h; split; exact h; split; exact h; exact h
+  | view => exact h
   | append l => simp only [step]; split; exact h; exact h
   | hold b => exact h
   | close =>
@@ -442,6 +448,188 @@ theorem acked_present_after_restart (w r : Bool) (l : List (Bool × Nat × Nat))
   simp only [crashOK, Bool.and_eq_true, decide_eq_true_eq] at hok'
   exact mem_evIds.2 ⟨rec, mem_upTo.2 ⟨hr, Nat.le_trans h3 hok'.1.1⟩, h1, h2⟩
 
+/-! ### restart with ARBITRARY chunking of the byte stream -/
+
+theorem catch_up_from_rd {A : List Rec} {L : Nat} {s1 : St} (h : Rd A L s1) :
+    let s' := run s1 (replayOps s1.rest ++ [Op.commit L, Op.ready])
+    s'.tx.rows = evIds A ∧ s'.tx.off = L ∧ s'.dbo = L ∧ s'.rest = [] ∧ s'.aq = [] ∧ s'.closed = false ∧ s'.down = false := by
+  intro s'
+  obtain ⟨hrd2, hrest2⟩ := replay_all s1.rest _ _ s1 h rfl
+  have hfin := replay_finish hrd2 hrest2
+  have hs' : s' = run (run s1 (replayOps s1.rest)) [Op.commit L, Op.ready] := by
+    show run s1 (replayOps s1.rest ++ [Op.commit L, Op.ready]) = _
+    rw [run_append]
+  rw [← hs'] at hfin
+  obtain ⟨fi, fc, foff, frest, faq, fall, flen, fcl, fdown⟩ := hfin
+  have hdbo : s'.dbo = L := by
+    have := fc.c7
+    rw [frest, faq] at this
+    simp [rpos, flat_nil, total_nil] at this
+    rw [this, flen]
+  refine ⟨?_, by rw [foff, hdbo], hdbo, frest, faq, fcl, fdown⟩
+  have e : allRecs s' = s'.done := by simp [allRecs, frest, faq, flat_nil]
+  rw [fi.1.i2, ← e, fall]
+
+/-- **restart_catches_up, any chunking** — as `restart_catches_up`, but the reader may first hand the byte stream over in
+    ANY way: `del` is an arbitrary sequence of payloads cut anywhere (`dApplyBuf m`: the engine consumes the complete
+    leading events, answers NotEnoughData / UnknownMagic for what follows and returns how far it got; the reader carries
+    the rest over — also payloads that contain no complete event at all), whole-record payloads, skips of service records
+    and periodic Commits of any offset, in any order and number. Whatever `del` was, the engine stays consistent (no
+    record lost, duplicated or reordered: `Rd`), and as soon as the remaining records have been handed over (one per
+    call here; a `del` that already delivered everything makes this part empty) and Commit(d)/ready arrive, the database
+    holds exactly the events of the durable binlog in order and both offsets equal its end `d`. So the result does not
+    depend on how the real fsbinlog reader happens to fill its buffer. -/
+theorem restart_catches_up_any_chunking (w r : Bool) (l : List (Bool × Nat × Nat)) (hl : ∀ x ∈ l, 0 < x.2.2)
+    (ops : List Op) (d : Nat) (del : List Op) (hdel : del.all isDelivery = true) :
+    let s := run (fresh w r l) ops
+    crashOK s d = true →
+    let s1 := run s (Op.crash d false :: del)
+    let s' := run s1 (replayOps s1.rest ++ [Op.commit d, Op.ready])
+    Rd (upTo d (allRecs s)) d s1 ∧
+    s'.tx.rows = evsUpTo (allRecs s) d ∧ s'.tx.off = d ∧ s'.dbo = d ∧
+    s'.rest = [] ∧ s'.aq = [] ∧ s'.closed = false ∧ s'.down = false := by
+  intro s hok s1 s'
+  have hich : Inv s ∧ Ch s := run_inv_ch ops _ (fresh_inv w r l hl) (fresh_ch w r l hl)
+  obtain ⟨hi, hc⟩ := hich
+  have hok' := hok
+  simp only [crashOK, Bool.and_eq_true, decide_eq_true_eq] at hok'
+  have hstep : (step s (Op.crash d false)).1 = crashStep s d := by simp [step, hok]
+  have hi1 : Inv (crashStep s d) := by rw [← hstep]; exact step_inv hi _
+  have hc1 : Ch (crashStep s d) := by rw [← hstep]; exact step_ch hi hc _
+  have hA : allRecs (crashStep s d) = upTo d (allRecs s) := allRecs_crash hc d (Nat.le_trans hi.1.i7a hok'.1.1)
+  have hrd : Rd (upTo d (allRecs s)) d (crashStep s d) := ⟨hi1, hc1, rfl, ⟨rfl, rfl, rfl⟩, hA, rfl⟩
+  have hs1 : s1 = run (crashStep s d) del := by
+    show run s (Op.crash d false :: del) = _
+    rw [run, hstep]
+  have hrd1 : Rd (upTo d (allRecs s)) d s1 := by rw [hs1]; exact deliveries_rd del _ _ _ hrd hdel
+  exact ⟨hrd1, catch_up_from_rd hrd1⟩
+
+/-- progress of a cut payload: if it contains the first undelivered event completely, at least that event is consumed -/
+theorem chunk_makes_progress (s : St) (m : Nat) (r : Rec) (t : List Rec) (hrest : s.rest = r :: t)
+    (hev : r.isEv = true) (hm : r.ln ≤ m) : 0 < fitCount m s.rest := by
+  rw [hrest]; exact fitCount_pos m r t hev hm
+
+/-! ### readers, trace level -/
+
+/-- the ghost list `ann` is exactly the offsets the binlog announced: an accepted `Commit(k)` appends `k` -/
+theorem ann_records_commits (s : St) (k : Nat) (h : (s.closed || decide (s.len < k)) = false) :
+    (step s (.commit k)).1.ann = s.ann ++ [k] := by
+  simp only [step, h, Bool.false_eq_true, if_false]
+  unfold commitStep
+  split
+  · rfl
+  · split
+    · simp only [flushQ, foldl_flush, flushed, notify, announce]
+    · split <;> rfl
+
+def DurAnn (s : St) : Prop := s.dur = 0 ∨ s.dur ∈ s.ann
+
+theorem durAnn_step (s : St) (op : Op) (h : DurAnn s) : DurAnn (step s op).1 := by
+  have hann : ∀ (t : St) (k : Nat), DurAnn t → DurAnn (announce t k) := by
+    intro t k ht
+    show max t.dur k = 0 ∨ max t.dur k ∈ t.ann ++ [k]
+    by_cases hk : t.dur ≤ k
+    · right; rw [Nat.max_eq_right hk]; simp
+    · rw [Nat.max_eq_left (by omega)]
+      rcases ht with ht | ht
+      · left; exact ht
+      · right; exact List.mem_append_left _ ht
+  have hcs : ∀ (t : St) (k : Nat), DurAnn t → DurAnn (commitStep t k) := by
+    intro t k ht
+    have := hann t k ht
+    unfold commitStep
+    split
+    · exact this
+    · split
+      · simp only [DurAnn, flushQ, foldl_flush, flushed, notify]; exact this
+      · split
+        · exact this
+        · exact this
+  cases op with
+  | doOp i ln extra k =>
+    simp only [step, doOp]
+    split
+    · exact h
+    · cases k <;> simp only
+      · simp only [doWrite]
+        split
+        · exact h
+        · split
+          · split
+            · exact h
+            · exact h
+          · exact h
+      all_goals first | exact h | (simp only [doRead]; split; exact h; exact h)
+  | doNow i ln extra =>
+    simp only [step, doNow]
+    split
+    · exact h
+    · split
+      · exact h
+      · split
+        · exact h
+        · have := hcs (park (writeOK s i ln extra) i (s.dbo + plen ln) false) (s.dbo + plen ln + extra) h
+          split
+          · exact this
+          · exact this
+  | commit k => simp only [step]; split; exact h; exact hcs _ _ h
+  | tx => simp only [step, txStep]; split; exact h; split; exact h; split; exact h; exact h
+  | dApply n =>
+    simp only [step, deliverApply]; split; exact h; split; exact h; split; exact h; exact h
+  | dSkip n =>
+    simp only [step, deliverSkip]; split; exact h; split; exact h; split; exact h; exact h
+  | dApplyBuf m =>
+    simp only [step, deliverBuf]; split; exact h; split; exact h; split; exact h; exact h
+  | view => exact h
+  | append l => simp only [step]; split; exact h; exact h
+  | hold b => exact h
+  | close =>
+    simp only [step, closeStep]
+    split
+    · exact h
+    · have : DurAnn (if s.repl then s else commitStep s s.len) := by
+        split
+        · exact h
+        · exact hcs _ _ h
+      have htail : ∀ t : St, DurAnn t →
+          DurAnn (if t.dbo ≤ t.ci then ({ t with com := t.tx, closed := true }, "ok") else ({ t with closed := true }, "err")).1 := by
+        intro t ht; split <;> exact ht
+      exact htail _ this
+  | crash d torn => simp only [step]; split; exact h; split; exact h; exact h
+  | ready =>
+    simp only [step, readyStep]; split
+    · simp only [DurAnn, flushQ, foldl_flush, flushed]; exact h
+    · exact h
+
+theorem durAnn_run : ∀ (ops : List Op) (s : St), DurAnn s → DurAnn (run s ops) := by
+  intro ops
+  induction ops with
+  | nil => intro s h; exact h
+  | cons op t ih => intro s h; exact ih _ (durAnn_step s op h)
+
+/-- **what readers observe, at any point of any schedule** — split any history at any `view` op: `before` is everything
+    that happened up to the moment the View callback runs (writes, commits, crashes, restarts, other views, in any
+    interleaving), `after` is whatever follows. The value the callback observes (`(step s .view).2`, the committed
+    database `s.com`) is the application of the prefix of the binlog, as it is at that moment, that ends at the observed
+    offset; that offset is 0 or at most an offset `k` the binlog had ALREADY announced through Commit (fsync done) during
+    `before` (`s.ann` = the offsets of all Commits delivered so far); and the View itself changes nothing (it can be
+    erased from the history). -/
+theorem readers_observe_announced_prefix (w r : Bool) (l : List (Bool × Nat × Nat)) (hl : ∀ x ∈ l, 0 < x.2.2)
+    (before after : List Op) :
+    let s := run (fresh w r l) before
+    (step s .view).2 = fmtDB s.com ∧
+    s.com.rows = evsUpTo (allRecs s) s.com.off ∧
+    (s.com.off = 0 ∨ ∃ k ∈ s.ann, s.com.off ≤ k) ∧
+    run (fresh w r l) (before ++ .view :: after) = run (fresh w r l) (before ++ after) := by
+  intro s
+  have h : Inv s := run_inv before _ (fresh_inv w r l hl)
+  have hd : DurAnn s := durAnn_run before _ (Or.inl rfl)
+  refine ⟨rfl, (db_is_prefix w r l hl before).1, ?_, ?_⟩
+  · rcases hd with hd | hd
+    · left; have := h.1.i7a; omega
+    · right; exact ⟨s.dur, hd, h.1.i7a⟩
+  · rw [run_append, run_append]; rfl
+
 /-! ### the "skip already applied bytes" branch of binlog_engine.go `apply` -/
 
 /-- **apply_skip_branch_unreachable** — `impl.apply` reads the offset row inside the write transaction (`tx.off`) and takes
@@ -466,7 +654,7 @@ theorem repl_step (s : St) (op : Op) : (step s op).1.repl = s.repl := by
     split
     · rfl
     · split
-      · simp only [flushQ, foldl_flush, flushed, notify]
+      · simp only [flushQ, foldl_flush, flushed, notify, announce]
       · split <;> rfl
   cases op with
   | doOp i ln extra k =>
@@ -497,6 +685,8 @@ theorem repl_step (s : St) (op : Op) : (step s op).1.repl = s.repl := by
   | tx => simp only [step, txStep]; split; rfl; split; rfl; split <;> rfl
   | dApply n => simp only [step, deliverApply]; split; rfl; split; rfl; split <;> rfl
   | dSkip n => simp only [step, deliverSkip]; split; rfl; split; rfl; split <;> rfl
+  | dApplyBuf m => simp only [step, deliverBuf]; split; rfl; split; rfl; split <;> rfl
+  | view => rfl
   | append l => simp only [step]; split <;> rfl
   | hold b => rfl
   | close =>
@@ -572,7 +762,7 @@ theorem replica_commit_flushes (s : St) (hi : Inv s) (k : Nat) (hq : s.q = true)
     have h1 : ¬ k < s.ci := by omega
     have h2 : delayedCommit s k = true := by simp [delayedCommit, hq, hk]
     unfold commitStep
-    simp only [h1, if_false, h2, if_true, flushQ, foldl_flush, flushed, notify]
+    simp only [h1, if_false, h2, if_true, flushQ, foldl_flush, flushed, notify, announce]
     refine ⟨trivial, trivial, trivial, ?_, trivial, trivial⟩
     show s.tx.rows ++ itemsIds s.aq = s.tx.rows ++ evIds (flat s.aq)
     rw [itemsIds_eq _ hi.1.qs]
@@ -584,7 +774,7 @@ theorem replica_commit_flushes (s : St) (hi : Inv s) (k : Nat) (hq : s.q = true)
     · by_cases hp : parkedCommit s k = true
       · simp [parkedCommit] at hp; omega
       · have hp' : parkedCommit s k = false := by simpa using hp
-        simp only [h2, hp', Bool.false_eq_true, if_false, notify]
+        simp only [h2, hp', Bool.false_eq_true, if_false, notify, announce]
         exact ⟨trivial, trivial, hq, trivial⟩
 
 /-! ### non-vacuity: concrete histories (evaluated by the kernel) -/
@@ -620,6 +810,21 @@ example : replayOps (keptRest (run (fresh true false [(false, 0, 24)]) (demoOps.
 -- a kill while the commit timer is parked behind the binlog (ptx) is a legal crash point
 example : let s := run (fresh true false [(false, 0, 24)]) (demoOps.take 7)
     s.ptx = true ∧ crashOK s 36 = true ∧ crashOK s 72 = true := by decide
+-- arbitrary chunking: three unsynced-to-SQLite writes, kill, then the reader cuts the stream at 20 bytes (event 1 + 8 bytes
+-- of event 2), then hands over 8 bytes that hold no complete event, commits its position, then the rest in one payload
+def chunkOps : List Op :=
+  [.dSkip 24, .commit 24, .ready, .doOp 1 12 0 .ok, .doOp 2 13 0 .ok, .doOp 3 12 0 .ok, .commit 64]
+def chunkDel : List Op := [.dSkip 24, .dApplyBuf 20, .dApplyBuf 8, .commit 36, .dApplyBuf 28]
+example : chunkDel.all isDelivery = true := by decide
+example : crashOK (run (fresh true false [(false, 0, 24)]) chunkOps) 64 = true := by decide
+example : let s := run (fresh true false [(false, 0, 24)]) (chunkOps ++ [.crash 64 false, .dSkip 24, .dApplyBuf 20])
+    s.q = true ∧ s.rest.map (·.id) = [2, 3] ∧ (step s (.dApplyBuf 8)).2 = "ret=36 e=short" := by decide
+example : let s := run (fresh true false [(false, 0, 24)]) (chunkOps ++ Op.crash 64 false :: chunkDel)
+    s.rest = [] ∧ s.tx = ⟨[1, 2, 3], 64⟩ ∧ s.com = ⟨[], 24⟩ := by decide
+-- a reader looking at that moment sees the state committed at offset 24, announced by Commit(24) (and 36, 64)
+example : let s := run (fresh true false [(false, 0, 24)]) (chunkOps ++ Op.crash 64 false :: chunkDel)
+    (step s .view).2 = "-@24" ∧ s.ann = [24, 64, 36] := by decide
+
 -- replica: payloads parked while a commit is awaited, flushed by the Commit that covers the engine offset
 def replOps : List Op :=
   [.ready, .append [(true, 1, 12), (true, 2, 16)], .dApply 2, .append [(true, 3, 12)], .dApply 1, .append [(false, 0, 20)], .dSkip 20]
@@ -645,6 +850,44 @@ theorem torn_tail_restart_fails :
     (step s (.crash 36 true)).1.closed = true ∧
     (run s [.crash 36 false, .dSkip 24, .dApply 1, .commit 36, .ready]).tx = ⟨[1], 36⟩ ∧
     (run s [.crash 36 false, .dSkip 24, .dApply 1, .commit 36, .ready]).down = false := by decide
+
+/-! #### the other side of the torn-tail design space: accepting the longer file (seeded change C17-r2-2)
+
+  If `initChunk` merely accepted a file that is longer than the reader's position, the writer (O_APPEND) would put every
+  new record physically BEHIND the torn bytes while all logical offsets (buffer, Commit, `__binlog_offset`) continue
+  from the reader's position. The engine would look healthy (logically it behaves like `stepFixed`), acknowledge the new
+  writes after their fsync — and the next re-read of the file would parse the torn header, take the following bytes as
+  its body and never deliver the acknowledged event. `reread` below is that physical re-read. -/
+
+/-- bytes a torn header still wants are taken from the records written behind it; `none` = the stream ends inside a
+    record (the rest is garbage / NotEnoughData: the reader stops there) -/
+def swallow : Nat → List Rec → Option (List Rec)
+  | 0, l => some l
+  | _, [] => none
+  | n + 1, r :: t => if r.ln ≤ n + 1 then swallow (n + 1 - r.ln) t else none
+
+/-- physical re-read of a file = complete records `pre`, then a record `p` of which only `k < p.ln` bytes reached the
+    disk, then the records `behind` appended after it -/
+def reread (pre : List Rec) (p : Rec) (k : Nat) (behind : List Rec) : List Nat :=
+  evIds pre ++ (match swallow (p.ln - k) behind with
+    | some rest => evIds [p] ++ evIds rest
+    | none => [])
+
+/-- **why accepting the longer file is wrong** — write 1 is acknowledged and committed; write 2 (28 bytes) is cut by a
+    kill after its 12-byte header; the engine restarts as if the tail were not there (`stepFixed` logic = accept),
+    write 3 (16 bytes) is appended, fsynced, announced and ACKNOWLEDGED, and logically everything is fine
+    (`tx = [1, 3]`). But the file now holds record 1, the 12 torn bytes of 2, then 3: re-reading it delivers event 1 and
+    a phantom event 2 whose body is record 3 — the acknowledged write 3 is swallowed, a never-acknowledged write appears.
+    Refusing to start (current code, known finding) or cutting the tail off before writing (unapplied patch) are the
+    only sound choices; appending behind the tail is not. -/
+theorem append_behind_torn_tail_loses_acked :
+    let s0 := run (fresh true false [(false, 0, 24)])
+      [.dSkip 24, .commit 24, .ready, .doOp 1 12 0 .ok, .commit 36, .tx, .doOp 2 28 0 .ok]
+    let s1 := (stepFixed s0 (.crash 36 true)).1                    -- the kill tore write 2; the longer file is accepted
+    let s2 := run s1 [.commit 36, .ready, .doOp 3 16 0 .ok, .commit 52]   -- write 3 appended behind the torn bytes
+    s2.ackedW = [1, 3] ∧ s2.tx = ⟨[1, 3], 52⟩ ∧ s2.down = false ∧
+    reread [⟨false, 0, 24, 24⟩, ⟨true, 1, 12, 36⟩] ⟨true, 2, 28, 64⟩ 12 [⟨true, 3, 16, 52⟩] = [1, 2] ∧
+    3 ∉ reread [⟨false, 0, 24, 24⟩, ⟨true, 1, 12, 36⟩] ⟨true, 2, 28, 64⟩ 12 [⟨true, 3, 16, 52⟩] := by decide
 
 /-- a replica opens no binlog writer: a torn tail does not stop it -/
 example : (step (run (fresh false true []) [.ready]) (.crash 0 true)).1.down = false := by decide
